@@ -1100,11 +1100,6 @@ stream_encoder_mt_init(lzma_next_coder *next, const lzma_allocator *allocator,
 		coder->threads_initialized = 0;
 	}
 
-	// Basic initializations
-	coder->sequence = SEQ_STREAM_HEADER;
-	coder->block_size = (size_t)(block_size);
-	coder->outbuf_alloc_size = (size_t)(outbuf_size_max);
-
 	// Allocate the thread-specific base structures.
 	//
 	// The old threads (if any) aren't reused. Stopping them without
@@ -1133,8 +1128,14 @@ stream_encoder_mt_init(lzma_next_coder *next, const lzma_allocator *allocator,
 		coder->threads_max = options->threads;
 	}
 
-	// These must be reset only after the old threads are gone because
-	// a thread that was still running could set thread_error.
+	// Basic initializations
+	coder->sequence = SEQ_STREAM_HEADER;
+	coder->block_size = (size_t)(block_size);
+	coder->outbuf_alloc_size = (size_t)(outbuf_size_max);
+
+	// NOTE: All these are set only after the old threads are gone
+	// because a thread that was still running could read block_size
+	// and set thread_error.
 	coder->thread_error = LZMA_OK;
 	coder->thr = NULL;
 
